@@ -313,15 +313,14 @@ class Position(object):
         dt : `pd.Timestamp`, optional
             The optional timestamp of the current market price.
         """
-        self._check_set_dt(dt)
-
         if market_price <= 0.0:
             raise ValueError(
                 'Market price "%s" of asset "%s" must be positive to '
                 'update the position.' % (market_price, self.asset)
             )
-        else:
-            self.current_price = market_price
+
+        self._check_set_dt(dt)
+        self.current_price = market_price
 
     def _transact_buy(self, quantity, price, commission):
         """
